@@ -206,13 +206,13 @@ static Bytes pes_header(int64_t pts, unsigned pes_len, unsigned hv, unsigned di)
 }
 
 // Lays data units and fillers into a PES packet of N*184 bytes (N minimal + extra).
-static Bytes build_pes(std::vector<Item> items, int extra, unsigned di, int64_t pts, unsigned hv, Rng& r, bool safe, std::vector<DuSpan>* spans, bool keep_first = false) {
+static Bytes build_pes(std::vector<Item> items, int extra, unsigned di, int64_t pts, unsigned hv, Rng& r, bool safe, std::vector<DuSpan>* spans, bool keep_first = false, size_t min_n = 1) {
   auto where = [&]() -> long { return (long)((keep_first && !items.empty()) ? 1 + r.below(items.size()) : r.below(items.size() + 1)); };
   bool fixed = di >= 0x10 && di <= 0x1F;
   size_t S = 0;
   for (auto& it : items) S += it.b.size();
   size_t n184 = (46 + S + 183) / 184;
-  if (n184 < 1) n184 = 1;
+  if (n184 < min_n) n184 = min_n;
   n184 += (size_t)extra;
   if (n184 > 356) n184 = 356;  // PES_packet_length is 16 bits
   while (n184 * 184 < 46 + S) n184++;
@@ -447,6 +447,10 @@ struct C07 : World {
     }
     p.knobs["pid"] = pid;
     p.knobs["iface"] = r.chance(2, 5) ? 1 : 0;
+    // out/C07/empty-frame-coroutine-livelock.json: damaged bytes parsed as data units can hit the same livelock of the
+    // PES coroutine (an unknown-line unit of the second field after a non-line unit in a fresh frame)
+    p.knobs["enum_cor"] = 1;  // enumerated partitions alternate between the two interfaces
+    if (STEER_KNOWN && !ts && (faulty || random_stream)) { p.knobs["iface"] = 0; p.knobs["enum_cor"] = 0; }
     p.knobs["max_lines"] = r.chance(3, 4) ? 64 : r.chance(1, 4) ? 100 : (int64_t)r.below(64);
     p.knobs["di"] = (int64_t)r.below(8);
     p.knobs["style"] = r.chance(1, 3) ? 1 : 0;
@@ -461,6 +465,8 @@ struct C07 : World {
     p.knobs["lat_step"] = 5 + (int64_t)r.below(40);
     p.knobs["lat_off"] = (int64_t)r.below(64);
     p.knobs["lead_in"] = STEER_KNOWN ? 1 : (int64_t)r.below(2);
+    // out/C07/ts-sync-drops-single-packet-pes.json: the defect also strikes when sync is regained after damage
+    p.knobs["ts_min2"] = (STEER_KNOWN && ts && faulty) ? 1 : 0;
     int big = thorough ? 3 : 1;
     int nframes = enumerate ? 1 + (int)r.below(3) : 2 + (int)r.below(13 * (uint64_t)big);
     if (random_stream) nframes = (int)r.below(4);
@@ -517,7 +523,7 @@ struct C07 : World {
     int npieces = (int)r.below(120);
     for (int i = 0; i < npieces; i++) {
       Op o; o.task = 4;
-      if (r.chance(1, 90)) { o.kind = "reset"; p.ops.push_back(o); continue; }
+      if (r.chance(1, 45)) { o.kind = "reset"; p.ops.push_back(o); continue; }
       o.kind = "piece";
       int x = (int)r.below((uint64_t)wsum), mode = 0;
       for (int k = 0; k < 8; k++) { if (x < weights[k]) { mode = k; break; } x -= weights[k]; }
@@ -673,6 +679,7 @@ struct C07 : World {
     const int fillers = (int)(iabs(plan.knob("fillers")) % 3);
     const bool lead_in = plan.knob("lead_in") & 1;
     const bool steer = plan.knob("steer") & 1;
+    const size_t min_n = (plan.knob("ts_min2") & 1) ? 2 : 1;  // steering: no PES packet that fits into one TS packet
 
     // ---- 1. the VBI service: frames -> PES packets
     std::vector<SentFrame> frames;
@@ -743,7 +750,7 @@ struct C07 : World {
           int extra = pi == 0 ? (int)(iabs(op.arg(3)) % 357) : (fr.chance(1, 6) ? 1 : 0);
           int64_t ppts = pi == 0 ? pts : (fr.chance(1, 2) ? pts : (pts + 1800) & PTS_MASK);
           if (safe && pi) for (int i = 0; i < 4000 && !pts_bytes_safe(ppts, dts); i++) ppts = (ppts + 33001) & PTS_MASK;
-          vp.b = build_pes(items, extra, di, ppts, hv, fr, safe, &vp.dus, keep_first);
+          vp.b = build_pes(items, extra, di, ppts, hv, fr, safe, &vp.dus, keep_first, min_n);
           pk.push_back(vp);
           sf.pkt_lines.push_back(li);
           sf.nts.push_back(ts ? (int)(vp.b.size() / 184) : 1);
@@ -807,7 +814,7 @@ struct C07 : World {
       for (size_t j = i + 1; j < order.size(); j++) if (!order[j].stuff) { pts = frames[(size_t)order[j].frame].pts; break; }
       Rng sr((uint64_t)order[i].op->arg(1), "stuff");
       VPkt vp;
-      vp.b = build_pes({}, (int)(iabs(order[i].op->arg(0)) % 3), di, pts & PTS_MASK, hv, sr, safe, &vp.dus);
+      vp.b = build_pes({}, (int)(iabs(order[i].op->arg(0)) % 3), di, pts & PTS_MASK, hv, sr, safe, &vp.dus, false, min_n);
       vpk.push_back(vp);
     }
 
@@ -899,22 +906,22 @@ struct C07 : World {
           case F_DROP: drop = true; pending_gap = true; any_damage = true; ctx.count(ts ? "fault_ts_drop" : "fault_pes_drop"); break;
           case F_PES_TRUNC:
             if (ts) { drop = true; pending_gap = true; }
-            else { u.b.resize((size_t)(x % (int64_t)u.b.size())); u.dmg = true; }
+            else { u.b.resize((size_t)(x % (int64_t)(u.b.size() + 1))); u.dmg = true; }
             any_damage = true; ctx.count("fault_pes_trunc"); break;
           case F_DUP: dup = true; ctx.count(ts ? "fault_ts_dup" : "fault_pes_dup"); break;
           case F_SWAP: swap = true; any_damage = true; ctx.count(ts ? "fault_ts_swap" : "fault_pes_swap"); break;
           case F_TS_CC:
-            if (!ts) continue;
+            if (!ts || u.b.size() < 4) continue;
             if (x % 2) { unsigned d = 1 + (unsigned)(y % 15); u.b[3] = (char)(((unsigned char)u.b[3] & 0xF0) | (((unsigned char)u.b[3] + d) & 15)); vbi_cc += d; }  // the counter jumps for good
             else u.b[3] = (char)(((unsigned char)u.b[3] & 0xF0) | (((unsigned char)u.b[3] + 1 + (unsigned)(y % 15)) & 15));                                          // this packet only
             u.dmg = true; any_damage = true; ctx.count("fault_ts_cc"); break;
-          case F_TS_TEI: if (!ts) continue; u.b[1] = (char)((unsigned char)u.b[1] | 0x80); u.dmg = true; any_damage = true; ctx.count("fault_ts_tei"); break;
-          case F_TS_SCR: if (!ts) continue; u.b[3] = (char)((unsigned char)u.b[3] | ((1 + x % 3) << 6)); u.dmg = true; any_damage = true; ctx.count("fault_ts_scrambled"); break;
-          case F_TS_PUSI: if (!ts) continue; u.b[1] = (char)((unsigned char)u.b[1] ^ 0x40); u.dmg = true; any_damage = true; ctx.count("fault_ts_pusi"); break;
-          case F_TS_AFC: { if (!ts) continue; static const unsigned v[] = {0x00, 0x20, 0x30}; u.b[3] = (char)(((unsigned char)u.b[3] & 0xCF) | v[x % 3]); u.dmg = true; any_damage = true; ctx.count("fault_ts_afc"); break; }
-          case F_TS_TRUNC: if (!ts) continue; u.b.resize((size_t)(x % 188)); u.dmg = true; any_damage = true; ctx.count("fault_ts_trunc"); break;
+          case F_TS_TEI: if (!ts || u.b.size() < 4) continue; u.b[1] = (char)((unsigned char)u.b[1] | 0x80); u.dmg = true; any_damage = true; ctx.count("fault_ts_tei"); break;
+          case F_TS_SCR: if (!ts || u.b.size() < 4) continue; u.b[3] = (char)((unsigned char)u.b[3] | ((1 + x % 3) << 6)); u.dmg = true; any_damage = true; ctx.count("fault_ts_scrambled"); break;
+          case F_TS_PUSI: if (!ts || u.b.size() < 4) continue; u.b[1] = (char)((unsigned char)u.b[1] ^ 0x40); u.dmg = true; any_damage = true; ctx.count("fault_ts_pusi"); break;
+          case F_TS_AFC: { if (!ts || u.b.size() < 4) continue; static const unsigned v[] = {0x00, 0x20, 0x30}; u.b[3] = (char)(((unsigned char)u.b[3] & 0xCF) | v[x % 3]); u.dmg = true; any_damage = true; ctx.count("fault_ts_afc"); break; }
+          case F_TS_TRUNC: if (!ts || u.b.size() < 4) continue; u.b.resize((size_t)(x % 188)); u.dmg = true; any_damage = true; ctx.count("fault_ts_trunc"); break;
           case F_TS_PID: {
-            if (!ts) continue;
+            if (!ts || u.b.size() < 4) continue;
             unsigned np = (pid ^ (1u << (x % 13))) & 0x1FFF;
             u.b[1] = (char)(((unsigned char)u.b[1] & 0xE0) | (np >> 8)); u.b[2] = (char)(np & 255);
             u.dmg = true; any_damage = true; ctx.count("fault_ts_pid"); break;
@@ -1224,9 +1231,10 @@ struct C07 : World {
       if (!ec.open(&ctx, ts, pid, true, 64)) { ctx.fail("harness:new", "demux constructor failed"); e.close(); finish(); return; }
       const unsigned char* base = (const unsigned char*)pipe.data();
       std::vector<GFrame> want_cor = expect_of(ref_full, true, 64);
+      const bool enum_cor = plan.knob("enum_cor", 1) & 1;
       Fnv eh;
       for (size_t c = 1; c < total && !ctx.failed; c++) {
-        Dx& d = (c & 1) ? e : ec;
+        Dx& d = ((c & 1) || !enum_cor) ? e : ec;
         d.got.clear();
         d.reset();  // documented: back to the state after _new()
         d.feed(base, c); d.feed(base + c, total - c);
@@ -1239,7 +1247,7 @@ struct C07 : World {
       size_t o1 = (size_t)(iabs(plan.knob("lat_off")) % (int64_t)step), pairs = 0;
       for (size_t c1 = 1 + o1; c1 < total && !ctx.failed; c1 += step)
         for (size_t c2 = c1 + 1 + (c1 * 7 + o1) % step; c2 < total && !ctx.failed; c2 += step) {
-          Dx& d = (pairs & 1) ? e : ec;
+          Dx& d = ((pairs & 1) || !enum_cor) ? e : ec;
           d.got.clear();
           d.reset();
           d.feed(base, c1); d.feed(base + c1, c2 - c1); d.feed(base + c2, total - c2);
@@ -1264,8 +1272,8 @@ struct C07 : World {
       // "once intact packets follow" cannot apply to packets a preceding header declares to be payload)
       for (int i = 0; i < nu; i++) {
         const FUnit& u = U[(size_t)i];
-        if (!u.dmg || !u.start || u.b.size() < 6) continue;
-        const unsigned char* b = (const unsigned char*)u.b.data();
+        if (!u.dmg || !u.start || st.off[(size_t)i] + 6 > total) continue;
+        const unsigned char* b = (const unsigned char*)pipe.data() + st.off[(size_t)i];  // the length may lie in what follows a cut header
         if (b[0] || b[1] || b[2] != 1 || b[3] < 0xBC) continue;
         size_t ext = st.off[(size_t)i] + 6 + ((size_t)b[4] << 8 | b[5]);
         for (int j = i + 1; j < nu && st.off[(size_t)j] < ext; j++) if (!U[(size_t)j].dmg) { U[(size_t)j].dmg = true; ctx.count("units_inside_claimed_length"); }
@@ -1324,17 +1332,21 @@ struct C07 : World {
         int earlier = 0, first_after = -1;
         for (int j = k - 1; j >= 0; j--) if (frames[(size_t)j].intact && 2 * frames[(size_t)j].a + 1 > x) { earlier++; first_after = j; }
         if (!earlier) { ctx.count("frames_exempt_first_after"); continue; }
-        if (earlier == 1 && ts && frames[(size_t)first_after].nts.size() > 1) {
-          // TS: regaining sync / continuity costs the first PES packet of the first frame after the damage.  What
-          // is left of that frame may not let the start of this one be recognised (no numbered line at or above
-          // this frame's first line, or an unknown-line unit of the same field): then the two are one frame to any
-          // receiver that has no other delimiter than line order and field parity, and the statement's "first
-          // frame after the damage" covers both.
+        if (earlier == 1 && frames[(size_t)first_after].nts.size() > 1) {
+          // The first frame after the damage may lose its leading PES packet(s): in TS regaining sync / continuity
+          // costs a packet, in both modes its start may not be recognisable after what is left of the damaged
+          // frame before it.  What remains of it may in turn not let the start of THIS frame be recognised (no
+          // numbered line at or above this frame's first line, or an unknown-line unit of the same field): then the
+          // two are one frame to any receiver that has no other delimiter than line order and field parity, and the
+          // statement's "first frame after the damage" covers both.  (Only streams with unknown-line units.)
           const SentFrame& A = frames[(size_t)first_after];
-          unsigned ln = 0; int lf = 0;
-          for (size_t p = 1; p < A.pkt_lines.size(); p++) for (int i : A.pkt_lines[p]) { if (A.lines[(size_t)i].off) ln = std::max(ln, A.lines[(size_t)i].line()); lf = A.lines[(size_t)i].field; }
           const ELine& b0 = f.lines[0];
-          bool recognisable = b0.off ? b0.line() <= ln : b0.field != lf;
+          bool recognisable = true;
+          for (size_t from = 1; from < A.pkt_lines.size() && recognisable; from++) {
+            unsigned ln = 0; int lf = 0;
+            for (size_t p = from; p < A.pkt_lines.size(); p++) for (int i : A.pkt_lines[p]) { if (A.lines[(size_t)i].off) ln = std::max(ln, A.lines[(size_t)i].line()); lf = A.lines[(size_t)i].field; }
+            recognisable = b0.off ? b0.line() <= ln : b0.field != lf;
+          }
           if (!recognisable) { ctx.count("frames_exempt_merged_with_first_after"); continue; }
         }
       }
